@@ -38,7 +38,11 @@
    Let and awaited later or twice (DAGs), LOld leaves, value() on an already existing future (including a
    synchronous value() on a batch item or on somebody else's task) -, programs reading scoped state or the
    active task (ReadVar / Probe; their sequential meaning needs an environment), contexts whose
-   pause/resume raise; for them C01 rests on the correspondence and the monitors. *)
+   pause/resume raise; for them C01 rests on the correspondence and the monitors.
+   WITHOUT THE HYPOTHESIS no_unwind FOR stree PROGRAMS (end of the file; proofs/MachineGuardFormsS.v): the stree
+   theorems whose hypothesis is no_unwind P n (start h s1) are restated with "the MAX_TASK_STACK_SIZE guard has not
+   fired before step n" in its place (MachineNoUnwind.stree_no_unwind_iff_guard_silent):
+   C01_async_eq_seq_stree_guard. *)
 From Asynq Require Import Machine Seq proofs.ProgProofs proofs.MachineC08 proofs.MachineC01 proofs.MachineC01S
      proofs.MachineNoUnwind.
 
@@ -202,3 +206,18 @@ Print Assumptions C01_async_eq_seq_stree_unless_guard.
    of scoped state) is not proved: a sequential reference for those needs an environment of handles and, for
    HOAS bodies, a parametricity-style well-formedness predicate; that part of C01 rests on the
    correspondence. *)
+
+(* ==== the stree theorems WITHOUT an assumption about exceptions unwinding (proofs/MachineNoUnwind.v, MachineGuardFormsS.v) ====
+   [no_unwind P n (start h s1)] is replaced by "the MAX_TASK_STACK_SIZE guard has not fired before step n"; also with
+   synchronous calls FutureIsAlreadyComputed is proved unreachable (stree_no_unwind_iff_guard_silent), so the guard's
+   RuntimeError is the only exception that can unwind through asynq's frames.  Binders and conclusions are those of
+   the theorems of the same name without the suffix _guard. *)
+From Asynq Require Import proofs.MachineNoUnwind proofs.MachineGuardFormsS.
+Theorem C01_async_eq_seq_stree_guard : forall P p n o,
+  pointwise P -> stree p ->
+  let h := fst (create [] (FTask p) (st0 P)) in
+  let s1 := snd (create [] (FTask p) (st0 P)) in
+  (forall k, (k < n)%nat -> guard_fires P (run P k (start h s1)) = false) ->
+  c_mode (run P n (start h s1)) = MDone o -> o = evals p.
+Proof. exact async_eq_seq_stree_guard. Qed.
+Print Assumptions C01_async_eq_seq_stree_guard.
